@@ -460,7 +460,34 @@ func deriveTripCount(loop *Loop) {
 	var isUpCounting, ivOnLeft bool
 	var isInclusive, isNEQ bool
 
-	switch binOp.Op {
+	// The formulas below read the comparison as the condition for STAYING in the loop
+	// ("for i < n"). When the true branch is the one that leaves the loop
+	// ("if i >= n { break }") the loop stays while the negated comparison holds.
+	op := binOp.Op
+	if succs := exitBlock.Succs; len(succs) == 2 && !loop.Blocks[succs[0]] {
+		if loop.Blocks[succs[1]] {
+			switch op {
+			case token.LSS:
+				op = token.GEQ
+			case token.LEQ:
+				op = token.GTR
+			case token.GTR:
+				op = token.LEQ
+			case token.GEQ:
+				op = token.LSS
+			case token.EQL:
+				op = token.NEQ
+			default:
+				loop.TripCount = &SCEVUnknown{Value: nil}
+				return
+			}
+		} else {
+			loop.TripCount = &SCEVUnknown{Value: nil}
+			return
+		}
+	}
+
+	switch op {
 	case token.LSS:
 		isUpCounting = true
 		ivOnLeft = true
